@@ -53,6 +53,7 @@ type Ctx struct {
 	cellCtr  int
 	allocCtr int
 	topFrame *Frame
+	storeDefs map[string]storeDef
 	nonnil   map[string]bool
 	caseCalls map[string][][2]Val
 }
@@ -110,6 +111,66 @@ func isAtom(t string) bool {
 }
 
 // define names a term (unless it is already atomic).
+// storeDefs remembers definitions of the form name := (store base idx val) so that a read of the
+// same index resolves syntactically (keeps E-matching patterns applicable to the stored value).
+type storeDef struct{ base, idx, val string }
+
+func (c *Ctx) selectHeap(arr, ref string) string {
+	cur := arr
+	for depth := 0; depth < 64; depth++ {
+		sd, ok := c.storeDefs[cur]
+		if !ok {
+			break
+		}
+		if sd.idx == ref {
+			return sd.val
+		}
+		// different syntactic index: only skip when both are provably distinct
+		if !distinctRefs(sd.idx, ref) {
+			break
+		}
+		cur = sd.base
+	}
+	return sSel(cur, ref)
+}
+
+// distinctRefs: two object references that cannot be equal (different literal allocations, or
+// slots i != j of the same token vector).
+func distinctRefs(a, b string) bool {
+	if a == b {
+		return false
+	}
+	lit := func(t string) bool {
+		return isPosLiteral(t) || (strings.HasPrefix(t, "(- ") && isPosLiteral(strings.TrimSuffix(t[3:], ")")))
+	}
+	if lit(a) && lit(b) {
+		return true
+	}
+	// (+ (* 8 s) i) vs (+ (* 8 s) j) with literal i != j ; or (* 8 s) itself (= slot 0)
+	slot := func(t string) (string, string, bool) {
+		if strings.HasPrefix(t, "(* 8 ") {
+			return t, "0", true
+		}
+		if strings.HasPrefix(t, "(+ (* 8 ") && strings.HasSuffix(t, ")") {
+			parts := splitSexp(t[3 : len(t)-1])
+			if len(parts) == 2 && isPosLiteral(parts[1]) {
+				return parts[0], parts[1], true
+			}
+		}
+		return "", "", false
+	}
+	ba, ia, oka := slot(a)
+	bb, ib, okb := slot(b)
+	if oka && okb && ba == bb && ia != ib {
+		return true
+	}
+	// a fresh local token (negative literal) vs a token-vector slot of a positive state reference
+	if (lit(a) && strings.HasPrefix(a, "(- ") && okb) || (lit(b) && strings.HasPrefix(b, "(- ") && oka) {
+		return true
+	}
+	return false
+}
+
 func (c *Ctx) define(hint, sort, term string) string {
 	if isAtom(term) {
 		return term
@@ -121,6 +182,15 @@ func (c *Ctx) define(hint, sort, term string) string {
 	}
 	n := c.fresh(hint)
 	c.emit("(define-fun " + n + " () " + sort + " " + term + ")")
+	if strings.HasPrefix(term, "(store ") {
+		parts := splitSexp(term[7 : len(term)-1])
+		if len(parts) == 3 {
+			if c.storeDefs == nil {
+				c.storeDefs = map[string]storeDef{}
+			}
+			c.storeDefs[n] = storeDef{parts[0], parts[1], parts[2]}
+		}
+	}
 	return n
 }
 
@@ -243,6 +313,7 @@ type Frame struct {
 	curLoop  *LoopInfo
 	curState *State
 	lastIdx  string
+	havocLog []havocRec
 }
 
 type retInfo struct {
@@ -919,7 +990,7 @@ func (fr *Frame) loadField(st *State, sn string, fi int, ref string) Val {
 	sorts := c.pr.smtSorts(f.Type())
 	comps := make([]string, len(sorts))
 	for k := range sorts {
-		comps[k] = sSel(st.heap[heapKey(sn, f.Name(), k)], ref)
+		comps[k] = c.selectHeap(st.heap[heapKey(sn, f.Name(), k)], ref)
 	}
 	v := c.pr.mkVal(f.Type(), comps)
 	fr.assumeRange(v)
@@ -1739,6 +1810,17 @@ func (c *Ctx) mapLookup(glob string, key Val) (string, string) {
 	}
 	if fn2 {
 		c.assumeOnce(sImp(sEq(val, "102"), "(<= 2 "+key.C[2]+")"))
+	}
+	// no blacklisted fingerprint consists of bareword / number classes only ("0" followed by N and 1)
+	plainFree := true
+	for k, v := range c.pr.Tables.SqlKeywords {
+		if v == 'F' && len(k) >= 1 && strings.Trim(k[1:], "N1") == "" {
+			plainFree = false
+		}
+	}
+	if plainFree {
+		q := c.fresh("qk")
+		c.assumeOnce(sImp(sEq(val, "70"), "(exists (("+q+" Int)) (and (<= (+ "+key.C[1]+" 1) "+q+") (< "+q+" (+ "+key.C[1]+" "+key.C[2]+")) (not (= (select "+key.C[0]+" "+q+") 78)) (not (= (select "+key.C[0]+" "+q+") 49))))"))
 	}
 	// every blacklisted two-class fingerprint ("0XY") ends in C or U
 	fp2 := true
